@@ -44,6 +44,9 @@ def plan(tier, seed):
     for k in range(12 if tier == "quick" else 120):
         # a helper definition repeated verbatim in two components
         specs.append({"klass": "repeated_helper_definition", "i": 9000 + k, "repeat_helper": True})
+    for k in range(8 if tier == "quick" else 60):
+        # declared defaults across all decades (plain and ScalarParam form, both signs, short and 15-digit mantissas)
+        specs.append({"klass": "default_literals", "i": 9500 + k})
     n = 220 if tier == "quick" else 3000
     for k in range(n):
         specs.append({"klass": "random", "i": k, "fill": True})
@@ -84,11 +87,46 @@ def case_text(spec, rng):
         return "# one\n# two words\n" + classes.packed_model(["a * 2", "b - c"]) + "# trailing comment\n"
     if k == "corpus":
         return open(os.path.join(env.REPO, spec["file"])).read()
+    if k == "default_literals":
+        return default_literal_model(rng, spec["i"])
     if spec.get("repeat_helper"):
         ms = models.gen_model(rng, Profile(hard_lits=False, mod=False), depth=2, n_comp=rng.choice([2, 3]), n_states=rng.choice([2, 3, 4]))
         models.repeat_helper(ms)
         return ms.render(rng)
     return models.gen_model(rng, Profile(), depth=rng.choice([2, 3])).render(rng)
+
+
+def default_literal_model(rng, i):
+    """Parameters and states whose declared defaults cover the decades 1e-290 .. 1e300 (every exponent is reached over the cases of a
+    tier: the exponents of case i are i, i + 8, ... shifted), written the way users write them."""
+    mant = ["1", "1.0", "2.5", "4.0", "9.99999999999999", "1.00000000000001", "3", "7.125", "1.5"]
+    vals = []
+    exps = list(range(-290 + i % 10, 301, 10)) + [rng.randint(-290, 300) for _ in range(6)] + [-5, -4, 15, 16, 0, 10, 20, -10, -20, 100, -100, -300 + 10 + i % 5]
+    for q, ex in enumerate(exps):
+        m = mant[(q + i) % len(mant)]
+        sign = "-" if (q + i) % 4 == 0 else ""
+        vals.append(f"{sign}{m}{rng.choice(['e', 'E', 'e+'] if ex >= 0 else ['e', 'E'])}{ex}")
+    half = len(vals) // 2
+    ps = [f"p{j}={v}" if j % 3 else f'p{j}=ScalarParam({v}, unit="mV")' for j, v in enumerate(vals[:half])]
+    ss = [f"s{j}={v}" if j % 3 != 1 else f'"comp{j % 2}", s{j}=ScalarParam({v})' for j, v in enumerate(vals[half:])]
+    lines = ["parameters(" + ", ".join(ps) + ")"]
+    plain = [x for x in ss if not x.startswith('"')]
+    lines.append("states(" + ", ".join(plain) + ")")
+    for x in ss:
+        if x.startswith('"'):
+            lines.append("states(" + x + ")")
+    lines.append("")
+    n_s = len(vals) - half
+    for j in range(n_s):
+        if j % 3 == 1:
+            lines.append(f'expressions("comp{j % 2}")')
+            lines.append(f"ds{j}_dt = -s{j} * 0.5")
+    lines.append('expressions("main")') if False else None
+    body = [f"ds{j}_dt = -s{j} * 0.5 + 0 * p{j % half}" for j in range(n_s) if j % 3 != 1]
+    # the plain states live in the unnamed component: their equations come first
+    head = lines[: 2 + sum(1 for x in ss if x.startswith('"'))]
+    tail = lines[len(head) + 1:]
+    return "\n".join(head + [""] + body + [t for t in tail if t is not None]) + "\n"
 
 
 def atoms_of(ode):
